@@ -141,7 +141,15 @@ func runC01(tier string, seed uint64) {
 					s.PostForm(b, k, body, m)
 				case 2:
 					s.Put(b, k+".src", body, m)
-					s.Copy(b, k+".src", b, k)
+					if n%2 == 0 {
+						s.Copy(b, k+".src", b, k)
+					} else {
+						// the copy request names metadata of its own: it wins at the destination, the
+						// source keeps what it was uploaded with
+						s.CopyWith(b, k+".src", b, k, []KV{{"Content-Type", "application/x-copied"}, {"X-Amz-Meta-One", "overridden"}, {"X-Amz-Meta-Copy", fmt.Sprint(n)}})
+					}
+					s.Get(b, k+".src", "")
+					s.Head(b, k+".src", "")
 				case 3:
 					s.apiPut(b, k, body, m)
 				}
@@ -198,5 +206,5 @@ func runC01(tier string, seed uint64) {
 			s.end()
 		}
 	}
-	sample("per backend x integrity on/off: bodies of 0,1,2,63..65,4095..4097,32767..32769 random bytes (and 1 MiB+1; 5 MiB+3 thorough) x 8 keys (spaces, '+', UTF-8, '?', '&', '%41%2F', ';', ',', 401 bytes nested) x 3 metadata sets (none; type + x-amz-meta; type+encoding+disposition+900-byte value), uploaded by PUT (with/without Content-MD5), browser-form POST, copy, and Backend.PutObject; each followed by GET and HEAD (HTTP and Backend API) and a listing of the key; groups of keys that differ only by '/', '_', '\\', case, ' ', '+', '%20', trailing '.' each get their own body and metadata, are read back, one is rewritten, one deleted, all read again")
+	sample("per backend x integrity on/off: bodies of 0,1,2,63..65,4095..4097,32767..32769 random bytes (and 1 MiB+1; 5 MiB+3 thorough) x 8 keys (spaces, '+', UTF-8, '?', '&', '%41%2F', ';', ',', 401 bytes nested) x 3 metadata sets (none; type + x-amz-meta; type+encoding+disposition+900-byte value), uploaded by PUT (with/without Content-MD5), browser-form POST, copy (plain, and with metadata headers of its own, the source re-read afterwards), and Backend.PutObject; each followed by GET and HEAD (HTTP and Backend API) and a listing of the key; groups of keys that differ only by '/', '_', '\\', case, ' ', '+', '%20', trailing '.' each get their own body and metadata, are read back, one is rewritten, one deleted, all read again")
 }
